@@ -264,7 +264,10 @@ static void task_body(int task, void* arg) {
     out.reset();
     uint64_t t0 = sim::now();
     sim::op_begin((int)i);
-    for (int k = 0; k < list[i].rep; ++k) run_op_guarded(list[i], out, &g_shm->threw[pt][i]);
+    for (int k = 0; k < list[i].rep; ++k) {
+      list[i].iter = k;
+      run_op_guarded(list[i], out, &g_shm->threw[pt][i]);
+    }
     sim::op_end();
     g_shm->op_events[pt][i] = sim::now() - t0;
   }
